@@ -130,11 +130,11 @@ theorem isEmpty_error (O : Oracle) (l : TL) (e : Err) (h : isEmpty O l = .error 
 theorem isEmpty_true_disj (O : Oracle) (hO : O.Certified) (a b : TL) (h : isEmpty O (tlUnion a b) = .ok true) :
     TL.Disj a b := by
   rintro ⟨v, ha, hb⟩
-  exact polyEmpty_true O hO _ _ h ⟨v, (Pacti.C03.holds_tlUnion a b v).mpr ⟨ha, hb⟩⟩
+  exact ((Pacti.C11.isEmpty_iff O hO _ true h).mp rfl) ⟨v, (Pacti.C03.holds_tlUnion a b v).mpr ⟨ha, hb⟩⟩
 
-theorem isEmpty_false_share (O : Oracle) (hO : O.Certified) (a b : TL) (ha : a.Proper) (hb : b.Proper)
+theorem isEmpty_false_share (O : Oracle) (hO : O.Certified) (a b : TL) (_ha : a.Proper) (_hb : b.Proper)
     (h : isEmpty O (tlUnion a b) = .ok false) : ∃ v, TL.holds a v ∧ TL.holds b v := by
-  have := (Pacti.C11.isEmpty_iff O hO _ (Pacti.C03.proper_tlUnion a b ha hb) false h)
+  have := (Pacti.C11.isEmpty_iff O hO _ false h)
   simp only [Bool.false_eq_true, false_iff, not_not] at this
   obtain ⟨v, hv⟩ := this
   exact ⟨v, (Pacti.C03.holds_tlUnion a b v).mp hv⟩
